@@ -3,5 +3,6 @@ INIT Init
 NEXT Next
 INVARIANT Layout
 INVARIANT Compare
+INVARIANT Known
 INVARIANT ValLaws
 INVARIANT Emit
